@@ -1,6 +1,8 @@
 package core
 
 import (
+	"sync"
+
 	"github.com/mfcochauxlaberge/jsonapi"
 )
 
@@ -25,6 +27,10 @@ type MapOrder struct {
 	seed     uint64
 	flipSite int
 	// statistics
+	// mu: the engines are single-threaded, but a tree under test may start
+	// goroutines of its own inside a call; the hook must not crash then (what such a
+	// tree outputs is judged by the oracles, not here)
+	mu          sync.Mutex
 	Applied     int64 // loop executions with >= 2 entries
 	NonIdentity int64 // of those, executions whose order differed from sorted
 	Sites       map[int]int64
@@ -58,6 +64,9 @@ func reversed(n int) []int {
 }
 
 func (m *MapOrder) hook(site, n int) []int {
+	m.mu.Lock()
+	defer m.mu.Unlock()
+
 	m.Applied++
 	m.Sites[site]++
 
